@@ -45,7 +45,7 @@
       - [C13_enabling_is_monotone]: erase (erase S F') F = erase S F for F ⊆ F';
       - [C13_enabling_shows_everything]: with every feature enabled nothing is deleted. *)
 From Coq Require Import String List.
-From ApiFu Require Import Base.Sexp Feat.FeaturesModel Feat.FeaturesSpec Feat.FeaturesProofs.
+From ApiFu Require Import Base.Sexp Feat.FeaturesModel Feat.FeaturesSpec Feat.FeaturesProofs Feat.FeaturesReach.
 Import ListNotations.
 Open Scope string_scope.
 Open Scope list_scope.
@@ -157,6 +157,33 @@ Theorem C13_noninterference_physical : forall (A : Type) (p : prog A) S F G,
   run fixed S F [] p = run fixed (erase_physical S F) G [] p.
 Proof. exact @noninterference_physical. Qed.
 
+(** [reachable] (what schema.New registers; an iteration with fuel = number of types) computes
+    exactly the least set of names that contains the roots - directive argument types, root
+    operation types, AdditionalTypes - and is closed under the references of registered types
+    ([reaches], an inductive predicate): the fuel always suffices. *)
+Theorem C13_reachable_fuel_suffices : forall S n,
+  schema_ok S = true -> (In n (reachable S) <-> reaches S n).
+Proof. exact (fun S n H => reachable_iff S H n). Qed.
+
+(** hence the registry of the physically reduced schema, without any fuel: *)
+Theorem C13_erase_physical_registry : forall S F n,
+  schema_ok S = true ->
+  (In n (map fst (types (erase_physical S F))) <-> reaches (erase S F) n).
+Proof. exact erase_physical_registry. Qed.
+
+(** the exclusion of the known finding says: every type the request may see is still reached from
+    the roots of the reduced definition *)
+Theorem C13_exclusion_means_still_reached : forall S F,
+  schema_ok S = true ->
+  (excl_orphaned_type S F = false <-> forall n, visible S F n = true -> reaches (erase S F) n).
+Proof. exact excl_orphaned_spec. Qed.
+
+Theorem C13_noninterference_physical_declarative : forall (A : Type) (p : prog A) S F G,
+  schema_ok S = true -> subset F G = true ->
+  (forall n, visible S F n = true -> reaches (erase S F) n) ->
+  run fixed S F [] p = run fixed (erase_physical S F) G [] p.
+Proof. exact @noninterference_physical_reaches. Qed.
+
 Theorem C13_orphaned_type_refuted :
   schema_ok W_orphan = true /\ excl_orphaned_type W_orphan [] = true /\
   map fst (types (erase W_orphan [])) = [nm "Int"; nm "T"; nm "Query"] /\
@@ -233,6 +260,10 @@ Print Assumptions C13_erase_schema_ok.
 Print Assumptions C13_enabling_is_monotone.
 Print Assumptions C13_enabling_shows_everything.
 Print Assumptions C13_noninterference_physical.
+Print Assumptions C13_reachable_fuel_suffices.
+Print Assumptions C13_erase_physical_registry.
+Print Assumptions C13_exclusion_means_still_reached.
+Print Assumptions C13_noninterference_physical_declarative.
 Print Assumptions C13_orphaned_type_refuted.
 Print Assumptions C13_introspection_refuted_before_fix.
 Print Assumptions C13_spread_refuted_before_fix.
